@@ -78,7 +78,7 @@ func one(disk bool, dir string, capMix bool) (string, map[string]interface{}) {
 		size := vlib.Pick(r, 1, 5, 40, 40, 200, 30000)
 		if capMix { // one channel, small and large payloads mixed: the reply-size cap is crossed in the middle of a page
 			ssid = message.Ssid{5, 9}
-			size = vlib.Pick(r, 2, 2, 2, 20000, 30000, 40000)
+			size = vlib.Pick(r, 2, 2, 2, 20000, 30000, 40000, 65500, 65530, 65536) // the last three: alone near or above the reply-size cap
 		}
 		m := message.New(ssid, []byte("ch"), payload(size))
 		age := int64(vlib.Pick(r, 0, 1, 1, 2, 2, 3, 10, 100, 5000))
@@ -261,5 +261,5 @@ func main() {
 			sh.Add(t, map[string]interface{}{"op": "continuation across expiry"}, "lapse", true)
 		}
 	}
-	sh.Finish("stores of 5-30 messages over contracts {5,9,6} x levels {9,5,11,255,0x1ff,0xffffffff} (5/9 and 9/5 collide in the 32-bit key prefix; ids ending in 0xff) depth 1-3, ages 0..5000 s with many per second, ttl short / long / retained / already expired, payloads up to 30000 bytes (reply-size cap); every 6th store on one channel with payloads of 2 / 20000 / 30000 / 40000 bytes mixed (the cap is crossed in the middle of a page); one-second and inverted windows; 6-16 queries each: filters with wildcards, shorter and longer than stored channels, windows, limits 0..100000, continuation from ids of the previous answer or any stored id; in-memory provider and (every 4th) the on-disk provider; lapse: stores whose short-lived messages expire between page 1 and the continuation page (real 5 s pause), continuation from the first / last id of page 1; non-trivial: all")
+	sh.Finish("stores of 5-30 messages over contracts {5,9,6} x levels {9,5,11,255,0x1ff,0xffffffff} (5/9 and 9/5 collide in the 32-bit key prefix; ids ending in 0xff) depth 1-3, ages 0..5000 s with many per second, ttl short / long / retained / already expired, payloads up to 30000 bytes (reply-size cap); every 6th store on one channel with payloads of 2 / 20000 / 30000 / 40000 bytes mixed (the cap is crossed in the middle of a page) and single messages near or above the cap (65500 - 65536 bytes of payload); one-second and inverted windows; 6-16 queries each: filters with wildcards, shorter and longer than stored channels, windows, limits 0..100000, continuation from ids of the previous answer or any stored id; in-memory provider and (every 4th) the on-disk provider; lapse: stores whose short-lived messages expire between page 1 and the continuation page (real 5 s pause), continuation from the first / last id of page 1; non-trivial: all")
 }
